@@ -3,6 +3,7 @@ package props
 // C12: Reset/Init make a used parser object behave like a new one.
 
 import (
+	"bytes"
 	"fmt"
 
 	"github.com/intuitivelabs/sipsp"
@@ -159,7 +160,88 @@ func histStr(ops []Op) string {
 	return s
 }
 
+// bigListInput renders m contacts / URI parameters / URI headers for the "many items in a big caller array" histories.
+func bigListInput(kind string, m int, salt string) []byte {
+	var w bytes.Buffer
+	switch kind {
+	case KMsg:
+		w.WriteString("REGISTER sip:r.example SIP/2.0\r\nVia: SIP/2.0/UDP h;branch=z9hG4bK" + salt + "\r\nContact: ")
+	case KHdrLinePV:
+		w.WriteString("Contact: ")
+	}
+	for i := 0; i < m; i++ {
+		switch kind {
+		case KURIParams:
+			if i > 0 {
+				w.WriteByte(';')
+			}
+			fmt.Fprintf(&w, "p%s%d=%d", salt, i, i)
+		case KURIHdrs:
+			if i > 0 {
+				w.WriteByte('&')
+			}
+			fmt.Fprintf(&w, "h%s%d=%d", salt, i, i)
+		default:
+			if i > 0 {
+				w.WriteString(", ")
+			}
+			fmt.Fprintf(&w, "\"c%s %d\" <sip:c%d@h.example>;expires=%d", salt, i, i, 10+i)
+		}
+	}
+	switch kind {
+	case KMsg:
+		w.WriteString("\r\nl: 0\r\n\r\n")
+	case KHdrLinePV, KContacts:
+		w.WriteString("\r\nX")
+	}
+	return w.Bytes()
+}
+
+// genBigResetCase: a caller array around a needle size (17, 33, 256 ...) and inputs with about as many items, so
+// that slots far beyond the usual handful are touched before the reset - completed, abandoned mid-item, or both.
+func genBigResetCase(t *rapid.T) CaseReset {
+	kind := pick(t, "bigkind", KMsg, KContacts, KHdrLinePV, KURIParams, KURIHdrs)
+	k := pick(t, "bigk", 16, 17, 18, 32, 33, 255, 256, 257)
+	if kind == KMsg || kind == KContacts || kind == KHdrLinePV {
+		k = pick(t, "bigk_ct", 16, 17, 18, 32, 33, 64)
+	}
+	capv := k + pick(t, "bigcap_d", 0, 0, 1, 3)
+	cfg := Cfg{Kind: kind, HdrCap: -1, CtCap: -1, PCap: -1}
+	switch kind {
+	case KMsg, KContacts, KHdrLinePV:
+		cfg.CtCap = capv
+	case KURIParams:
+		cfg.PCap, cfg.Flags, cfg.EndLast = capv, uint(sipsp.POptTokURIParamF), true
+	case KURIHdrs:
+		cfg.PCap, cfg.Flags, cfg.EndLast = capv, uint(sipsp.POptTokURIHdrF), true
+	}
+	cs := CaseReset{Cfg: cfg}
+	nops := rapid.IntRange(1, 2).Draw(t, "bignops")
+	for i := 0; i < nops; i++ {
+		m := k + pick(t, "bigm_d", -1, 0, 1, 2, 5)
+		op := Op{Buf: bigListInput(kind, m, pick(t, "bigsalt", "a", "b")), Flags: cfg.Flags, EndLast: cfg.EndLast}
+		switch weighted(t, "bigop", 2, 3) {
+		case 0:
+		default:
+			cut := len(op.Buf) - rapid.IntRange(1, 60).Draw(t, "bigcut")
+			if cut > 0 {
+				op.Sched, op.Abandon = []int{cut}, 1
+			}
+		}
+		op.UseInit = rapid.Bool().Draw(t, "biguseinit")
+		cs.Ops = append(cs.Ops, op)
+	}
+	cs.Probe = bigListInput(kind, k+pick(t, "bigp_d", -1, 0, 1, 2), pick(t, "bigpsalt", "a", "c"))
+	if rapid.Bool().Draw(t, "bigpchunked") {
+		cs.PSch = []int{rapid.IntRange(1, len(cs.Probe)-1).Draw(t, "bigpcut")}
+	}
+	return cs
+}
+
 func genResetCase(t *rapid.T) CaseReset {
+	if oneIn(t, "big", 25) {
+		return genBigResetCase(t)
+	}
 	kind := pick(t, "kind", allKinds[:len(allKinds)-1]...) // SkipQuoted has no object
 	cfg := genCfg(t, kind)
 	// caller-supplied arrays matter most here
